@@ -490,7 +490,13 @@ def run_distrib(ctx, split):
     cases = [{"mode": "distrib", "scenario": "idle", "workers": 20, "trials": 2},
              {"mode": "distrib", "scenario": "busy", "workers": 20, "trials": 12 if quick else 60},
              {"mode": "distrib", "scenario": "overload", "workers": 20, "messages": 40},
-             {"mode": "distrib", "scenario": "overload", "workers": 10, "messages": 25}]
+             {"mode": "distrib", "scenario": "overload", "workers": 10, "messages": 25},
+             # fewer than 10 workers: the hand-off channel is unbuffered
+             {"mode": "distrib", "scenario": "overload", "workers": 1, "messages": 5},
+             {"mode": "distrib", "scenario": "overload", "workers": 2, "messages": 7},
+             {"mode": "distrib", "scenario": "overload", "workers": 9, "messages": 14},
+             {"mode": "distrib", "scenario": "idle", "workers": 2, "trials": 2},
+             {"mode": "distrib", "scenario": "busy", "workers": 2, "trials": 6 if quick else 20}]
     # lock-trace probes: the sweeper is held inside its read section until a writer is queued for the lock
     lt_regs = [reg_json(r) for r in finish_regs([mk_reg(1, 0, 1, "api", True, False), mk_reg(2, 0, 1, "api", True, False),
                                                   mk_reg(3, 1, 2, "api", False, False), mk_reg(4, 0, 1, "api", True, False)])]
@@ -544,6 +550,11 @@ def run_distrib(ctx, split):
                          "section takes the read lock again behind the waiting writer. %s" % (sc, r["progress"]), replay)
             elif r["depth_at_scan"] != 1:
                 ctx.fail("lock-depth:sweep-read-section", "the sweeper holds %d read locks at its scan point (expected 1)" % r["depth_at_scan"], replay)
+            elif r.get("writer_ran") and not r["writer_queued"]:
+                ctx.fail("lock-kind:writer-not-exclusive/" + sc, "a section that writes the registration table (%s) ran to completion while "
+                         "the expiry sweeper held the table's read lock inside its scan: it does not take the write lock, so its writes are "
+                         "not synchronised with the readers" % {"activate": "MarkActive: timeout status", "dup": "duplicate ingest: regCount",
+                                                               "track": "ingest: track"}.get(sc, sc), replay)
             elif not r["writer_queued"]:
                 ctx.broken("driver", "locktrace: the writer never queued for the lock (probe ineffective)", replay)
             continue
@@ -572,8 +583,12 @@ def run_distrib(ctx, split):
             elif r["received"] != c["messages"] or r["received"] != r["taken"] + r["buffered"] + r["dropped"] or r["dropped"] != r["total_dropped"]:
                 ctx.fail("overload:lost-count", "received=%d but taken=%d buffered=%d dropped=%d (counted %d)" %
                          (r["received"], r["taken"], r["buffered"], r["dropped"], r["total_dropped"]), replay)
-            if not r["send_blocked"]:
+            # an unbuffered hand-off only succeeds if the worker already waits in its select; when one was still
+            # starting the message is (correctly) dropped instead, which the paced model schedule does not mirror
+            if not r["send_blocked"] and (r["cap"] > 0 or r["taken"] == min(c["workers"], c["messages"])):
                 terms.append((pcase_term(not split, c["workers"], r["cap"], 30000 // 20, c["messages"], r), replay))
+            if r["cap"] == 0:
+                ctx.cov["histogram"]["distrib/unbuffered"] = ctx.cov["histogram"].get("distrib/unbuffered", 0) + 1
             if r["returned"] and not all(r["returned"]):
                 ctx.fail("shutdown:idle-input", "HandleRegUpdates did not return within 4 s of the stop request after the overload run", replay)
     if terms:
@@ -732,6 +747,7 @@ def run(ctx):
             f_race.result()
         return
     terms = []
+    term_case = []
     for r in res:
         r["events"] = r.get("events") or []
         r["steps"] = r.get("steps") or []
@@ -753,22 +769,26 @@ def run(ctx):
             ctx.cov["histogram"]["ingest/duplicate"] = ctx.cov["histogram"].get("ingest/duplicate", 0) + 1
         if any(e["kind"] == "update" for e in r["events"]):
             ctx.cov["histogram"]["handler/activated"] = ctx.cov["histogram"].get("handler/activated", 0) + 1
+        if r.get("skipped"):
+            ctx.cov["histogram"]["sched/skipped-after-hangs"] = ctx.cov["histogram"].get("sched/skipped-after-hangs", 0) + 1
+            continue
         oracle(ctx, c, r, i)
         terms.append(hexs(enc_case(c, r, split)))
+        term_case.append(i)
     ctx.sample({"scenario": {"regs": [reg_json(x) for x in cases[0]["regs"]], "schedule": cases[0]["schedule"]},
                 "observed_last_step": res[0]["steps"][-1] if res[0]["steps"] else None, "events": res[0]["events"]})
     ctx.require_kinds(["sched/publish-window", "startup/before", "startup/after", "startup/yield", "sched/pair0", "sched/pair+handler", "sched/trio", "sched/mixed", "sched/swept-in-flight",
                        "point/after-track", "point/after-covert", "point/probe", "point/end", "point/collected",
                        "point/before-remove", "point/found", "point/disabled", "sweep/removed", "ingest/duplicate",
                        "handler/activated", "distrib/idle", "distrib/busy", "distrib/overload",
-                       "locktrace/track", "locktrace/dup", "locktrace/activate"])
+                       "locktrace/track", "locktrace/dup", "locktrace/activate", "distrib/unbuffered"])
     tm["oracle_and_encode"] = round(time.time() - t0, 1)
     t0 = time.time()
     mm = ctx.coq_mismatches("sched", HEADER, terms, "chkb", shard=min(500, max(60, len(terms) // 16 + 1)), need_vo=["C09/Run.vo"])
     if mm:
         ctx.cov["mismatches"] += len(mm)
-        i = mm[0]
-        where = ctx.coq_show("bad", HEADER, "first_badb %s" % terms[i])
+        where = ctx.coq_show("bad", HEADER, "first_badb %s" % terms[mm[0]])
+        i = term_case[mm[0]]
         ctx.broken("correspondence", "model C09 and the real pipeline disagree on %d schedule(s); first: case %d tag=%s, first differing step: %s"
                    % (len(mm), i, cases[i].get("tag"), where[-200:]),
                    {"sched_cases": [cases[i]], "observed": res[i]})
